@@ -20,16 +20,17 @@ ID = 'C15'
 LEVEL = 'exploration'
 TECHNIQUE = 'runtime monitor: open/close history checker joined with the recorder\'s per-thread invocation stack (frame identity)'
 RULE = ('generated programs (recursion, mutual recursion, nested calls, caught / re-raised / propagating exceptions, '
-        'finally, generators incl. send/throw/close and yield from, 1-3 worker threads, 2-3 threads driven in lock step through a seeded turn order so that invocations of one function overlap across threads), 1-3 span processors (one of which may decline spans), a 500+ deep recursion with two spans pending per invocation, x 1-5 deferred tracepoints: '
+        'finally, generators incl. send/throw/close and yield from, coroutines driven by hand (send / throw / close) and by an asyncio event loop (gathered tasks, a cancelled task, async generators left unfinished, async with), 1-3 worker threads, 2-3 threads driven in lock step through a seeded turn order so that invocations of one function overlap across threads), 1-3 span processors (one of which may decline spans), a 500+ deep recursion with two spans pending per invocation, x 1-5 deferred tracepoints: '
         'line spans, method spans (by name), method_capture / line_capture snapshots (direct actions), co-located '
         'line+method tracepoints on one function incl. its last line, fire_count 1 or unlimited; non-trivial = at '
         'least one opening observed; distinct by (shapes, tracepoints)')
-ASSUMPTIONS = ['one generator resume counts as one invocation (CPython reports call/return per resume)',
+ASSUMPTIONS = ['one generator / coroutine resume counts as one invocation (CPython reports call/return per resume)',
                'a captured exception may be rendered as the (type, value, traceback) triple CPython hands to tracers']
 REQUIRE = {'openings': 1500, 'span_openings': 600, 'capture_openings': 300, 'recursive_openings': 60,
            'openings_in_threads': 40, 'exception_exits': 60,
            'withdrawn_mid_flight': 30, 'several_span_processors': 100,
-           'openings_overlapping_same_function_in_another_thread': 40, 'deep_recursion_cases': 10, 'with_a_declining_span_processor': 30, 'snapshot_ahead_of_span': 15, 'with_spans_that_are_falsy_when_new': 30, 'captures_on_indirectly_recursive_functions': 10, 'captures_on_functions_sharing_their_name': 10}
+           'openings_overlapping_same_function_in_another_thread': 40, 'deep_recursion_cases': 10, 'with_a_declining_span_processor': 30, 'snapshot_ahead_of_span': 15, 'with_spans_that_are_falsy_when_new': 30, 'captures_on_indirectly_recursive_functions': 10, 'captures_on_functions_sharing_their_name': 10,
+           'openings_in_coroutines': 12, 'openings_in_generators': 60}
 
 
 def plan(tier, seed):
@@ -39,17 +40,19 @@ def plan(tier, seed):
 
 FORCE = [['recursion'], ['mutual'], ['nested_calls'], ['try_caught'], ['finally_reraise'], ['propagate'],
          ['gen_full'], ['gen_send_throw'], ['yield_from'], ['threads'], ['method_exc'], ['else_finally'],
-         ['uncaught_in_gen'], ['with_cm'], ['recursion', 'threads'], ['klass'], ['lockstep'], ['lockstep', 'mutual'], ['deep_recursion'], ['same_name']]
+         ['uncaught_in_gen'], ['with_cm'], ['recursion', 'threads'], ['klass'], ['lockstep'], ['lockstep', 'mutual'], ['deep_recursion'], ['same_name'],
+         ['coro_manual'], ['asyncio_tasks'], ['asyncio_tasks', 'recursion']]
 
 
 class Inv:
-    __slots__ = ('fid', 'func', 'base', 'tid', 'call_seq', 'ret_seq', 'outcome', 'pending_exc', 'depth', 'is_gen',
+    __slots__ = ('fid', 'func', 'base', 'tid', 'call_seq', 'ret_seq', 'outcome', 'pending_exc', 'depth', 'is_gen', 'is_coro',
                  'rendered')
 
     def __init__(self, ev, depth):
         self.fid, self.func, self.base, self.tid = ev.fid, ev.func, ev.base, ev.tid
         self.call_seq, self.ret_seq, self.outcome, self.pending_exc, self.depth = ev.seq, None, None, None, depth
         self.is_gen = False
+        self.is_coro = False
         self.rendered = None
 
 
@@ -196,6 +199,7 @@ def case_deferred(seed, out, spec, wd, idx):
         if ev.kind == 'call':
             inv = Inv(ev, len(st))
             inv.is_gen = bool(frame.f_code.co_flags & 0x20)
+            inv.is_coro = bool(frame.f_code.co_flags & 0x280)  # coroutine / asynchronous generator
             st.append(inv)
             with lock:
                 invs.append(inv)
@@ -352,6 +356,10 @@ def tally(out, inv, invs):
         out.count('openings_in_threads')
     if inv.outcome and inv.outcome[0] == 'exception':
         out.count('exception_exits')
+    if inv.is_coro:
+        out.count('openings_in_coroutines')
+    elif inv.is_gen:
+        out.count('openings_in_generators')
     if inv.ret_seq is not None and any(x.func == inv.func and x.tid != inv.tid and x.call_seq < inv.ret_seq and
                                        (x.ret_seq is None or x.ret_seq > inv.call_seq) for x in invs):
         out.count('openings_overlapping_same_function_in_another_thread')
